@@ -20,8 +20,10 @@ macro_rules! properties {
 
 properties! {
     "C01" => c01,
+    "C02" => c02,
     "C04" => c04,
     "C05" => c05,
+    "C06" => c06,
 }
 
 fn main() {
